@@ -46,6 +46,7 @@ pub fn out_files(w: &World, setup: &Setup) -> Files {
 /// exactly as it was.
 pub fn reference(env: &mut Env, w: &World, setup: &Setup, cfg: &Cfg, keys: u64) -> Result<Files, String> {
     let snap = w.snapshot();
+    let times = w.file_times();
     let out = w.out_dir(setup);
     let _ = std::fs::remove_dir_all(&out);
     let mut c = cfg.clone();
@@ -59,7 +60,7 @@ pub fn reference(env: &mut Env, w: &World, setup: &Setup, cfg: &Cfg, keys: u64) 
     }
     let r = run_tool(env, w, setup, &c, ProcSpec::plain(keys), force_flag, false);
     let files = out_files(w, setup);
-    w.restore(&snap);
+    w.restore_with_times(&snap, &times);
     if !r.res.status.is_ok() {
         return Err(format!("reference run failed: {}", r.res.status.short()));
     }
